@@ -138,35 +138,50 @@ fn expand_gnode(n: &GNode, defs: &mut Vec<(String, Option<GNode>)>) -> Result<GN
 /// implementation-only oracle for C02: value(aliased document) = value(expanded document) into the untyped
 /// target, and a document with an alias that has no completed anchor is an error.
 fn transparency_oracle(rng: &mut Rng, out: &mut Vec<serde_json::Value>, stats: &mut Sink) {
-    use crate::e2e::{run_single, Cfg};
     use crate::tyseed::Ty;
     let mut g = Gen::new(rng, GenCfg { max_depth: 4, merges: false, ..Default::default() });
     let d = g.document();
+    check_transparent(&d, &[Ty::Any], out, stats);
+}
+
+/// the same oracle on merge-key documents (anchored / aliased `<<` indicators, merges through nested anchors): the
+/// typed result of the document equals the typed result of its anchor-free, alias-free expansion
+fn transparency_oracle_merge(rng: &mut Rng, out: &mut Vec<serde_json::Value>, stats: &mut Sink) {
+    use crate::tyseed::Ty;
+    let d = crate::e2e::merge_doc(rng);
+    check_transparent(&d, &[Ty::Any, Ty::Map(Box::new(Ty::Str), Box::new(Ty::Any))], out, stats);
+}
+
+fn check_transparent(d: &GNode, tys: &[crate::tyseed::Ty], out: &mut Vec<serde_json::Value>, stats: &mut Sink) {
+    use crate::e2e::{run_single, Cfg};
     let mut has_alias = false;
     fn walk(n: &GNode, f: &mut bool) { match n { GNode::Alias(_) => *f = true, GNode::Seq { items, .. } => items.iter().for_each(|i| walk(i, f)), GNode::Map { entries, .. } => entries.iter().for_each(|(k, v)| { walk(k, f); walk(v, f) }), _ => {} } }
-    walk(&d, &mut has_alias);
+    walk(d, &mut has_alias);
     let cfg = Cfg { dup: 2, legacy_octal: false, strict_bool: false, ignore_binary: false, no_schema: false, budget: None,
                     limits: serde_saphyr::options::AliasLimits { max_total_replayed_events: usize::MAX, max_replay_stack_depth: 64, max_alias_expansions_per_anchor: usize::MAX } };
-    let text = render_doc(&d);
-    let got = run_single(&text, &Ty::Any, &cfg);
+    let text = render_doc(d);
     let mut tab = Vec::new();
-    match expand_gnode(&d, &mut tab) {
-        Ok(e) => {
-            let etext = render_doc(&e);
-            let want = run_single(&etext, &Ty::Any, &cfg);
-            stats.count(if has_alias { "oracle.expanded_with_alias" } else { "oracle.expanded_no_alias" });
-            // compare values; when both fail only the fact of failing is compared (error positions differ by construction)
-            let same = if got.starts_with("ok") || want.starts_with("ok") { got == want } else { true };
-            if !same {
-                out.push(serde_json::json!({"id": "C02-alias-not-transparent", "what": "value of the aliased document differs from the value of its expansion",
-                    "input": text, "expanded": etext, "observed": got, "expected": want}));
+    let expanded = expand_gnode(d, &mut tab);
+    for ty in tys {
+        let got = run_single(&text, ty, &cfg);
+        match &expanded {
+            Ok(e) => {
+                let etext = render_doc(e);
+                let want = run_single(&etext, ty, &cfg);
+                stats.count(if has_alias { "oracle.expanded_with_alias" } else { "oracle.expanded_no_alias" });
+                // compare values; when both fail only the fact of failing is compared (error positions differ by construction)
+                let same = if got.starts_with("ok") || want.starts_with("ok") { got == want } else { true };
+                if !same {
+                    out.push(serde_json::json!({"id": "C02-alias-not-transparent", "what": "value of the aliased document differs from the value of its expansion",
+                        "input": text, "expanded": etext, "type": ty.tokens(), "observed": got, "expected": want}));
+                }
             }
-        }
-        Err(()) => {
-            stats.count("oracle.unknown_alias_docs");
-            if got.starts_with("ok") {
-                out.push(serde_json::json!({"id": "C02-unknown-alias-accepted", "what": "alias without an earlier completed anchor did not produce an error",
-                    "input": text, "observed": got, "expected": "an error"}));
+            Err(()) => {
+                stats.count("oracle.unknown_alias_docs");
+                if got.starts_with("ok") {
+                    out.push(serde_json::json!({"id": "C02-unknown-alias-accepted", "what": "alias without an earlier completed anchor did not produce an error",
+                        "input": text, "observed": got, "expected": "an error"}));
+                }
             }
         }
     }
@@ -254,6 +269,9 @@ fn generate(a: &Args) -> i32 {
     let mut fails: Vec<serde_json::Value> = Vec::new();
     for _ in 0..(if a.thorough { 20000 } else { 1500 }) {
         transparency_oracle(&mut rng, &mut fails, &mut sink);
+    }
+    for _ in 0..(if a.thorough { 10000 } else { 1000 }) {
+        transparency_oracle_merge(&mut rng, &mut fails, &mut sink);
     }
     // fixed witnesses of past findings
     for (aliased, expanded) in [("&a \"\"", "\"\""), ("- &a ''\n- *a\n", "- ''\n- ''\n"), ("k: &a \"\"\nj: *a\n", "k: \"\"\nj: \"\"\n")] {
